@@ -128,6 +128,10 @@ def main():
             r2.remove_node(change[1])
           else:
             r2.add_node(change[1])
+          evals += 1
+          if set(e[1] for e in r2.ring) != set(r2.nodes) or (change[0] == 'remove' and change[1] in r2.nodes):
+            fail('c06-ring-entries-are-the-live-nodes', hash_type=ht, nodes=nodes, change=change,
+                 ring_nodes=repr(sorted(set(e[1] for e in r2.ring))), live=repr(sorted(r2.nodes)))
           step = 257 if a.tier == 'quick' else 16
           for p in range(0, 65536, step):
             evals += 1
@@ -157,6 +161,9 @@ def main():
             hist.append(['add', x])
         fresh = ConsistentHashRing(live, hash_type=ht)
         evals += 1
+        if set(e[1] for e in r3.ring) != set(live):
+          fail('c06-ring-entries-are-the-live-nodes', hash_type=ht, start=nodes, ops=hist,
+               ring_nodes=repr(sorted(set(e[1] for e in r3.ring))), live=repr(sorted(live)))
         if r3.nodes != fresh.nodes:
           fail('c06-history', hash_type=ht, start=nodes, ops=hist, live=live, what='node sets differ')
         elif r3.ring != fresh.ring:
